@@ -346,23 +346,28 @@ func runChaos(r *common.Run, sk *sink, o chaosOpt) {
 					}
 				}
 			}
-			// crash instant: at a step-worker point (just before / just after
-			// SaveRaftState) or at an arbitrary moment
+			// crash instant: at a step-worker point (just before / just after SaveRaftState), at a
+			// call boundary of the user state machine (snapshot save / recovery / sync), or at an
+			// arbitrary moment
 			crashes++
 			crng := rand.New(rand.NewSource(o.Seed + 77*int64(crashes)))
 			site := "arbitrary-moment"
-			if p := crng.Intn(3); p > 0 {
-				ch := h.ArmCrash(int32(p))
+			p := int32(crng.Intn(int(cluster.SiteLast) + 3))
+			if p > cluster.SiteLast {
+				p = 0
+			}
+			if p > 0 {
+				ch := h.ArmCrash(p)
 				select {
 				case <-ch:
-					site = []string{"", "before-SaveRaftState", "after-SaveRaftState"}[p]
+					site = cluster.SiteName(p)
 					h.CrashFinish()
 				case <-time.After(400 * time.Millisecond):
 					if h.Disarm() {
 						h.Crash()
 					} else {
 						<-ch
-						site = []string{"", "before-SaveRaftState", "after-SaveRaftState"}[p]
+						site = cluster.SiteName(p)
 						h.CrashFinish()
 					}
 				}
